@@ -1,4 +1,126 @@
-/- driver operations of C08 (stub: no model yet) -/
+/-
+Driver operations of C08: a whole operation history is one request.
+
+  `run <init> <k> <op>…`  → per step `<out> ; <num> <check-on-a-copy> <cache bits>`, joined by ` | `
+  `spec <init> <k> <op>…` → the same for the abstract spec (no cache bits)
+
+`<init>` = `se3 n <12n rationals>` | `pq n <7n rationals: x y z  w qx qy qz>`, then `T <ratlist>` | `N`.
+`<op>` = `tf L|R|P <12> <norm|->` | `sc s` | `red <natlist>` | `ds n <natlist>` | `mf <natlist>`
+       | `crop <natlist>` | `al r|s|o <9> <3> c <norm|->` | `ao <12> <norm|->` | `pj nd k <9k>` | `cp`
+       | `rd pos|quat|se3|stamps|num|dist` | `chk`
+-/
+import EvoModel.Model.Traj
 namespace Evo.Drv.C08
-def handle (_op : String) (_args : List String) : Option String := none
+open Evo Evo.Traj
+
+abbrev Prs := StateT (List String) Option
+
+def tok : Prs String := fun l => match l with | [] => none | a :: r => some (a, r)
+def ratP : Prs Rat := do let t ← tok; (parseRat? t : Option Rat)
+def natP : Prs Nat := do let t ← tok; (t.toNat? : Option Nat)
+def repP {α} (p : Prs α) : Nat → Prs (List α)
+  | 0 => pure []
+  | n + 1 => do let a ← p; let r ← repP p n; pure (a :: r)
+def natListP : Prs (List Nat) := do let n ← natP; repP natP n
+def ratListP : Prs (List Rat) := do let n ← natP; repP ratP n
+def v3P : Prs (V3 Rat) := do let a ← ratP; let b ← ratP; let c ← ratP; pure ⟨a, b, c⟩
+def m3P : Prs (M3 Rat) := do
+  let l ← repP ratP 9
+  (M3.ofList l : Option (M3 Rat))
+def poseP : Prs P := do
+  let l ← repP ratP 12
+  (Pose.ofList l : Option P)
+def normP : Prs (Option Rat) := do
+  let t ← tok
+  if t = "-" then pure none else match parseRat? t with | some r => pure (some r) | none => failure
+def stampsP : Prs (Option (List Rat)) := do
+  let t ← tok
+  if t = "N" then pure none else if t = "T" then do let l ← ratListP; pure (some l) else failure
+
+def initP : Prs (St × ATraj) := do
+  let t ← tok
+  let n ← natP
+  if t = "se3" then do
+    let ps ← repP poseP n
+    let st ← stampsP
+    pure (initSe3 ps st, ⟨ps.zipIdx.map (fun (p, i) => (p, st.bind (·[i]?))), st.isSome, false⟩)
+  else if t = "pq" then do
+    let l ← repP (do let p ← v3P; let w ← ratP; let x ← ratP; let y ← ratP; let z ← ratP; pure (p, quatToRot w x y z)) n
+    let st ← stampsP
+    let ps : List P := l.map (fun (p, r) => ⟨r, p⟩)
+    pure (initPosQuat (l.map (·.1)) (l.map (·.2)) st,
+          ⟨ps.zipIdx.map (fun (p, i) => (p, st.bind (·[i]?))), st.isSome, false⟩)
+  else failure
+
+def opP : Prs Op := do
+  let t ← tok
+  match t with
+  | "tf" => do
+      let m ← tok
+      let T ← poseP
+      let nm ← normP
+      let mode ← (match m with | "L" => pure Mode.left | "R" => pure Mode.right | "P" => pure Mode.prop | _ => failure : Prs Mode)
+      pure (.transform mode T nm)
+  | "sc" => do let s ← ratP; pure (.scale s)
+  | "red" => do let l ← natListP; pure (.reduce l)
+  | "ds" => do let n ← natP; let l ← natListP; pure (.downsample n l)
+  | "mf" => do let l ← natListP; pure (.motionFilter l)
+  | "crop" => do let l ← natListP; pure (.crop l)
+  | "al" => do
+      let m ← tok
+      let r ← m3P; let t ← v3P; let c ← ratP; let nm ← normP
+      let am ← (match m with | "r" => pure AlignMode.rigid | "s" => pure AlignMode.withScale | "o" => pure AlignMode.onlyScale | _ => failure : Prs AlignMode)
+      pure (.align am r t c nm)
+  | "ao" => do let p ← poseP; let nm ← normP; pure (.alignOrigin p nm)
+  | "pj" => do let nd ← natP; let k ← natP; let l ← repP m3P k; pure (.project nd l)
+  | "cp" => pure .copy
+  | "rd" => do
+      let v ← tok
+      match v with
+      | "pos" => pure (.read .pos) | "quat" => pure (.read .quat) | "se3" => pure (.read .se3)
+      | "stamps" => pure (.read .stamps) | "num" => pure (.read .num) | "dist" => pure (.read .dist)
+      | _ => failure
+  | "chk" => pure .check
+  | _ => failure
+
+def b01 (b : Bool) : String := if b then "1" else "0"
+
+def showOut : Out → String
+  | .unit => "U"
+  | .err => "E_TRAJ"
+  | .vecs l => s!"V {l.length} " ++ showRats (l.flatMap V3.toList)
+  | .rots l => s!"R {l.length} " ++ showRats (l.flatMap M3.toList)
+  | .poses l => s!"M {l.length} " ++ showRats (l.flatMap Pose.toList)
+  | .stamps none => "S -"
+  | .stamps (some l) => s!"S {l.length} " ++ showRats l
+  | .num n => s!"N {n}"
+  | .rats l => s!"Q {l.length} " ++ showRats l
+  | .chk a b r c => s!"C {b01 a} {b01 b} {showRat r} {b01 c}"
+
+def runShow (s : St) : List Op → List String
+  | [] => []
+  | op :: r =>
+      let (s', o) := step s op
+      (showOut o ++ " ; " ++ toString s'.numPoses ++ " " ++ showOut s'.check.2 ++ " " ++ s'.cacheBits)
+        :: runShow s' r
+
+def specShow (a : ATraj) : List Op → List String
+  | [] => []
+  | op :: r =>
+      let (a', o) := specStep a op
+      (showOut o ++ " ; " ++ toString a'.items.length ++ " " ++ showOut (specStep a' .check).2)
+        :: specShow a' r
+
+def handle (op : String) (args : List String) : Option String :=
+  match op with
+  | "run" => do
+      let ((s, _), rest) ← initP args
+      let (ops, _) ← (do let k ← natP; repP opP k : Prs (List Op)) rest
+      some (" | ".intercalate (runShow s ops))
+  | "spec" => do
+      let ((_, a), rest) ← initP args
+      let (ops, _) ← (do let k ← natP; repP opP k : Prs (List Op)) rest
+      some (" | ".intercalate (specShow a ops))
+  | _ => none
+
 end Evo.Drv.C08
